@@ -446,8 +446,19 @@ def rule_index_guarded(check, rule, keys, what):
             bt = norm(base)
             key = 'index|%s|%s' % (fi.key, norm_locals(fi.node, base, method=fi.cls is not None))
             st = '%s %s' % (fi.loc(x), fi.key)
+            # a list built element by element from another one (`[f(v) for v in A]`, possibly extended afterwards) is at least as long
+            derived_from = None
+            if isinstance(base, ast.Name):
+                for a_ in _own_nodes_(fi.node):
+                    if isinstance(a_, ast.Assign) and len(a_.targets) == 1 and isinstance(a_.targets[0], ast.Name) and a_.targets[0].id == base.id \
+                            and isinstance(a_.value, ast.ListComp) and len(a_.value.generators) == 1 and not a_.value.generators[0].ifs \
+                            and isinstance(a_.value.generators[0].iter, ast.Name) and a_.lineno < x.lineno:
+                        derived_from = a_.value.generators[0].iter.id
             if _nonempty_dominates(fi, x, bt):
                 check.holds(rule, st, '%s is taken under a test that %s is not empty' % (norm(x)[:40], bt), key=key)
+            elif derived_from is not None and _nonempty_dominates(fi, x, derived_from):
+                check.holds(rule, st, '%s is taken under a test that %s, which %s has an element for each of, is not empty' % (norm(x)[:40], derived_from, bt),
+                            key=key)
             elif (fi.key, norm_locals(fi.node, base, method=fi.cls is not None)) in REVIEWED_INDEX:
                 check.holds(rule, st, '%s: reviewed (%s)' % (norm(x)[:40], REVIEWED_INDEX[(fi.key, norm_locals(fi.node, base, method=fi.cls is not None))]),
                             key=key)
